@@ -23,8 +23,8 @@ RULE = ('Valid documents of every selectable map, envelope skeletons and raw str
         'structural catalogue (delete/duplicate/swap/move/retag segment, truncate at segment or character, orphan trailers, '
         'nested headers, non-numeric/missing counts, extra elements/components, empty and blank-only segments, doubled '
         'terminators, over-long segments, byte flips, delimiters dropped into data, damaged ISA) plus the 24 envelope faults of '
-        'C04, then run through one of three entry points under a chunk plan, an EOF offset (sampled, and swept exhaustively '
-        'for small documents in the thorough tier), one of the 8 sink subsets and a charset. distinct_nontrivial = distinct '
+        'C04, then run through one of three entry points under a chunk plan, an EOF offset (sampled; for documents <= 4 KiB every 25th run of the thorough tier and every 400th of the '
+        'quick tier sweeps *every* offset), one of the 8 sink subsets and a charset. distinct_nontrivial = distinct '
         '(entry point, sink subset, sorted fault kinds, outcome class) keys.')
 ASSUMPTIONS = [
     'documented outcomes: True; False; X12Error iff the first 106 characters are not a supported ISA header or a later ISA '
@@ -254,8 +254,14 @@ def generate(rng, tier, run, seed=0):
         m = mapspec.load_map(entry['file'])
         loops = [n.id for n in mapspec.walk(m) if n.kind == 'loop']
         loop_id = rng.choice(loops + ['ISA_LOOP', 'GS_LOOP', 'ST_LOOP', 'NOPE'])
-    return {'text': text, 'faults': fired, 'cfg': cfg, 'eof': eof, 'entry_point': entry_point, 'loop_id': loop_id,
+    case = {'text': text, 'faults': fired, 'cfg': cfg, 'eof': eof, 'entry_point': entry_point, 'loop_id': loop_id,
             'charset': rng.choice(['E', 'B']), 'base': base_kind, 'map': entry['file']}
+    if len(text) <= 4096 and run % (25 if tier == 'thorough' else 400) == 7:
+        # crash point enumeration: end of input at *every* character offset of a small document
+        case['eof_sweep'] = True
+        case['eof'] = None
+        case['cfg']['kind'] = 'sim'
+    return case
 
 
 # ------------------------------------------------------------------ oracle
@@ -352,6 +358,26 @@ def run_context(text, cfg, loop_id, charset, log):
 
 
 def execute(case):
+    if case.get('eof_sweep'):
+        total = core.Outcome()
+        n = len(case['text'])
+        h = []
+        for eof in range(n + 1):
+            o = execute(dict(case, eof_sweep=False, eof=eof))
+            h.append(o.digest)
+            total.cover |= o.cover
+            for k, v in o.faults.items():
+                total.faults[k] = total.faults.get(k, 0) + v
+            total.steps += o.steps
+            if o.violations:
+                v = o.violations[0]
+                total.violate(v.cls, v.sig, 'EOF at offset %d of %d: %s' % (eof, n, v.msg))
+                break
+        total.fault('eof_sweep_offsets', len(h))
+        total.info['evals'] = len(h)
+        total.info['knobs'] = {'entry': case['entry_point'], 'sweep': True}
+        total.digest = core.digest(h)
+        return total
     seams.import_pyx12()
     import pyx12.errors
     out = core.Outcome()
@@ -409,6 +435,14 @@ def execute(case):
 
 def shrink(case, still):
     best = dict(case)
+    if best.get('eof_sweep'):
+        for eof in range(len(best['text']) + 1):
+            c = dict(best, eof_sweep=False, eof=eof)
+            if still(c):
+                best = c
+                break
+        else:
+            return case
     text = best['text'] if best['eof'] is None else best['text'][:best['eof']]
     best = dict(best, text=text, eof=None)
     if not still(best):
